@@ -48,6 +48,13 @@ def main(tier):
         units_of = {}
         for r in proj["rows"]:
             units_of.setdefault(r["qt"], []).append(r["unit"])
+        # a history before the forms: registrations that are refused (a symbol of the table offered again for another quantity type)
+        refused = 0
+        for r in rng.sample(proj["rows"], 60):
+            other = "time" if r["qt"] != "time" else "length"
+            o = P.outcome(lambda: db.AddUnit(other, "verif duplicate", r["unit"], "%f", "%f"))
+            refused += o[0] != "ok"
+        rep.cov["refused_registrations_before_the_forms"] = refused
         values = [1.5, -2.0, 0.0, 12345.678, 3, numpy.float64(2.25), numpy.float64(-0.5), 1e-7]
 
         def forms_for(u, c, given):
@@ -86,12 +93,15 @@ def main(tier):
                     events.append({"op": "Repr", "u": u, "repr": repr(first), "eq": o[0] == "ok" and bool(o[1] == first),
                                    "proj1": pj(first), "proj2": pj(o[1]) if o[0] == "ok" else o[2]})
 
+        catnames = {ci["cat"] for ci in proj["cats"]}
         for r in proj["rows"]:
             u = r["unit"]
             c = db.GetDefaultCategory(u)
             if not c:
                 events.append({"op": "Forms", "cls": "-", "u": u, "given_category": "", "projs": ["no default category"], "all_eq": False, "unit": "", "category": "", "qtype": "", "value": ""})
                 continue
+            if r["qt"] != c and r["pos"] % 2 == 0 and r["qt"] in catnames:
+                P.outcome(ObtainQuantity, u, r["qt"])       # history: the unit was first requested with the category named like its quantity type
             record(u, c, False)
         for cinfo in proj["cats"]:
             c = cinfo["cat"]
